@@ -94,10 +94,30 @@ func (c20Mgr) Notify(n *command.NotifyRequest) error                           {
 func (c20Mgr) Join(n *command.JoinRequest) error                               { return nil }
 func (c20Mgr) Stepdown(wait bool, id string) error                             { return nil }
 
-type c20Dialer struct{}
+// c20Dialer remembers the connections it made so that the case can close them
+// all at its end (the client has no Close; pooled connections would otherwise
+// keep service goroutines alive until the service's idle timeout).
+type c20Dialer struct {
+	mu    sync.Mutex
+	conns []net.Conn
+}
 
-func (c20Dialer) Dial(addr string, timeout time.Duration) (net.Conn, error) {
-	return net.DialTimeout("tcp", addr, 5*time.Second)
+func (d *c20Dialer) Dial(addr string, timeout time.Duration) (net.Conn, error) {
+	c, err := net.DialTimeout("tcp", addr, 5*time.Second)
+	if err == nil {
+		d.mu.Lock()
+		d.conns = append(d.conns, c)
+		d.mu.Unlock()
+	}
+	return c, err
+}
+
+func (d *c20Dialer) closeAll() {
+	d.mu.Lock()
+	defer d.mu.Unlock()
+	for _, c := range d.conns {
+		c.Close()
+	}
 }
 
 type c20Step struct {
@@ -107,7 +127,7 @@ type c20Step struct {
 
 func TestVerif_C20_Client(t *testing.T) {
 	rec := vstat.New(t, "C20", "client",
-		"rapid: 1-6 steps drawn from {execute, query, request, load} x {fast, slow = 3 x caller timeout} plus {idle pause > service idle timeout (pooled connections go stale), burst of 3 fast requests (fills the pool)}; real cluster.Client (retries=0, as the HTTP layer uses by default) -> real cluster.Service over loopback TCP -> counting fake Database; non-trivial = the sequence contains a slow request, or a request after an idle pause; distinct by step sequence")
+		"rapid: 1-6 steps drawn from {execute, query, request, load} x {fast, slow = 3 x caller timeout} plus {idle pause, burst of 3 fast requests}; service idle timeout {25 ms: pooled connections go stale during pauses, 30 s: pooled connections stay open and are reused}; real cluster.Client (retries=0, as the HTTP layer uses by default) -> real cluster.Service over loopback TCP -> counting fake Database; non-trivial = the sequence contains a slow request, or a request after an idle pause; distinct by step sequence")
 	rapid.Check(t, func(rt *rapid.T) {
 		n := rapid.IntRange(1, 6).Draw(rt, "steps")
 		var steps []c20Step
@@ -119,7 +139,12 @@ func TestVerif_C20_Client(t *testing.T) {
 			}
 			steps = append(steps, st)
 		}
-		canon := fmt.Sprintf("%+v", steps)
+		// The service's idle timeout decides what becomes of a pooled connection:
+		// short = it goes stale (closed by the service) between requests; long (the
+		// production value is 30 s) = it stays open, so whatever is still in flight
+		// on it is read by the next request that gets it from the pool.
+		idle := rapid.SampledFrom([]time.Duration{c20Idle, 30 * time.Second}).Draw(rt, "service-idle-timeout")
+		canon := fmt.Sprintf("idle=%v %+v", idle, steps)
 		nontrivial := false
 		seenIdle := false
 		for _, s := range steps {
@@ -140,16 +165,23 @@ func TestVerif_C20_Client(t *testing.T) {
 		db := &c20DB{count: map[string]int{}, slow: map[string]bool{}}
 		svc := New(ln, db, c20Mgr{}, nil)
 		svc.logger.SetOutput(io.Discard)
-		svc.connTimeout = c20Idle
+		svc.connTimeout = idle
 		if err := svc.Open(); err != nil {
 			ln.Close()
 			rt.Skipf("infrastructure: %v", err)
 		}
+		dialer := &c20Dialer{}
 		defer func() {
 			svc.Close()
+			dialer.closeAll()
 			db.wg.Wait()
 		}()
-		cl := NewClient(c20Dialer{}, 5*time.Second)
+		if idle == c20Idle {
+			rec.Label("service-idle:short")
+		} else {
+			rec.Label("service-idle:long")
+		}
+		cl := NewClient(dialer, 5*time.Second)
 		ctx := context.Background()
 
 		seq := 0
